@@ -378,6 +378,82 @@ fn all_wraps(s: &Shape) -> Vec<&Wrap> {
     v
 }
 
+// ---------------------------------------------------------------------------------------------
+// nilary loops: `#{ steps…, ^ }` re-enters itself with no state, so it never ends; its space is
+// sampled after a small and after a 50 times larger instruction budget
+
+/// dice -> a never-ending nilary function whose last step (possibly under a nested block or a
+/// branch) is a bare `^` reached with a value flowing
+pub fn render_nilary(dice: &[u8]) -> String {
+    let d = |i: usize| dice.get(i).copied().unwrap_or(0);
+    let n_steps = 1 + d(0) as usize % 4;
+    let mut steps: Vec<String> = Vec::new();
+    for i in 0..n_steps {
+        let x = d(1 + 2 * i);
+        let y = d(2 + 2 * i);
+        steps.push(match x % 7 {
+            0 => format!("a{i} = [0x{:02x}, {}] __binary_repeat__", y, 1 + y % 9),
+            1 => format!("b{i} = [{}, 2] __integer_add__", y),
+            2 => format!("[{}, 0x{:02x}]", y, y),
+            3 => format!("{{ x{i} = {}, [x{i}, x{i}] }}", y),
+            4 => format!("[0x{:02x}, {}] __binary_repeat__", y, 2 + y % 7),
+            5 => format!("t{i} = T[{}, [0xcd, {}] __binary_repeat__]", y, 1 + y % 5),
+            _ => format!("{}", 1 + y as u32),
+        });
+    }
+    let tail = match d(9) % 5 {
+        0 => "^".to_string(),
+        1 => "{ 7, ^ }".to_string(),
+        2 => "{ | 1 => ^ }".to_string(),
+        3 => "{ z = 0x01, { z, ^ } }".to_string(),
+        _ => "{ | =0 => 5 | ^ }".to_string(),
+    };
+    format!("f = #{{ {}, {tail} }},\n[] f", steps.join(", "))
+}
+
+fn measure_budget(src: &str, reg: &qrun::Registry, budget: u64) -> Result<Option<Space>, (String, String)> {
+    let c = match catch(|| qrun::compile(src, &qrun::Modules::new(), reg)) {
+        Ok(Ok(c)) => c,
+        Ok(Err(e)) => return Err(("generator-rejected".into(), format!("generated program does not compile: {e:?}\n{src}"))),
+        Err(p) => return Err(("compile-panic".into(), format!("compiler panicked: {p}\n{src}"))),
+    };
+    let bc = c.program.to_bytecode(c.entry);
+    let run = match catch(|| qrun::run_sync(&bc, reg, QUANTUM, budget, true)) {
+        Ok(r) => r,
+        Err(p) => return Err(("run-panic".into(), format!("executor panicked: {p}\n{src}"))),
+    };
+    match &run.end {
+        RunEnd::Diverged => {
+            let st = &run.executor.stats;
+            Ok(Some(Space { frames: st.peak_frame_count, locals: st.peak_locals_size, stack: st.peak_stack_size, slots: run.executor.heap_stats().slots, slices: run.slices }))
+        }
+        // the loop ended (a generated branch left it): nothing to compare
+        RunEnd::Value(_) => Ok(None),
+        other => Err(("run-error".into(), format!("run ended in {other:?}\n{src}"))),
+    }
+}
+
+pub const NILARY_BUDGET: u64 = 40_000;
+
+pub fn check_nilary(src: &str, reg: &qrun::Registry) -> Result<Option<(Space, Space)>, (String, String)> {
+    let Some(small) = measure_budget(src, reg, NILARY_BUDGET)? else { return Ok(None) };
+    let Some(big) = measure_budget(src, reg, NILARY_BUDGET * FACTOR)? else { return Ok(None) };
+    let ctxt = |what: &str| format!("{what}\nafter {NILARY_BUDGET} units: {small:?}\nafter {} units: {big:?}\n--- program ---\n{src}", NILARY_BUDGET * FACTOR);
+    if big.frames != small.frames {
+        return Err(("frames-grow".into(), ctxt("peak call-frame count of a never-ending nilary loop depends on how long it ran")));
+    }
+    if big.locals != small.locals {
+        return Err(("locals-grow".into(), ctxt("peak locals of a never-ending nilary loop depend on how long it ran")));
+    }
+    if big.stack != small.stack {
+        return Err(("stack-grows".into(), ctxt("peak operand stack of a never-ending nilary loop depends on how long it ran")));
+    }
+    if big.slots > 2 * small.slots + 4 {
+        return Err(("heap-grows".into(), ctxt("heap slots of a never-ending nilary loop grow with the time it ran")));
+    }
+    Ok(Some((small, big)))
+}
+
 pub fn run(ctx: &Ctx) -> i32 {
     let started = Instant::now();
     let stats = Stats::new();
@@ -465,6 +541,37 @@ pub fn run(ctx: &Ctx) -> i32 {
                 },
             });
         }
+        // stream 2: never-ending nilary loops
+        let strat2 = prop::collection::vec(any::<u8>(), 10);
+        let res2 = pt_search(derive_seed(ctx.seed, ctx.id, shard, 1), ctx.tier.pick(60, 1_500), &strat2, &stats, |dice| {
+            let src = render_nilary(dice);
+            match check_nilary(&src, &reg) {
+                Ok(Some((small, big))) => {
+                    stats.evals(2);
+                    stats.class("kind:never-ending-nilary-loop");
+                    if big.slots > 0 {
+                        stats.class("nilary-loop-allocates");
+                    }
+                    let _ = small;
+                    Ok(())
+                }
+                Ok(None) => {
+                    stats.discard();
+                    Ok(())
+                }
+                Err((sig, msg)) => {
+                    if !ctx.strict && known.is_known(ctx.id, &sig).is_some() {
+                        stats.known_hit(&sig);
+                        return Ok(());
+                    }
+                    Err(format!("{sig}\u{1}{msg}"))
+                }
+            }
+        });
+        if let Search::Failed { minimal, message } = res2 {
+            let (sig, msg) = message.split_once('\u{1}').map(|(a, b)| (a.to_string(), b.to_string())).unwrap_or((message.clone(), message));
+            out.push(Violation { signature: sig, summary: truncate(&msg, 6000), replay: json!({"kind": "c16-nilary", "source": render_nilary(&minimal)}) });
+        }
         out
     });
 
@@ -472,13 +579,13 @@ pub fn run(ctx: &Ctx) -> i32 {
         ctx,
         stats: &stats,
         violations,
-        rule: "tail-recursive shapes: a counter loop through `^`, two functions calling each other through function-typed parameters (`^other`), nilary closures chained by `^~`, or functions re-entering themselves / each other through fields of a record carried in the argument (`^m.go`); optionally entered by a named tail call `^f`; the state optionally carries 1-3 binaries that are rebuilt every iteration; before the dispatch 0-2 throw-away bindings (integer, heap binary, tuple, closure); the tail call sits under 0-4 generated wrappers (nested block, binding in the same branch, consequence of a condition, a branch after a failed binding pattern, redundant double block, a step before it), optionally two different wrapper stacks chosen by parity; each iteration adds a generated term (constant, n, length of a fresh binary, a tuple field, a closure call). Each shape runs at an even N in 40..118 (so that both runs see the same parities in each function) and at 50*N, quantum 64, profiling on; shapes that allocate binaries run again at (2N, 100N) with the runtime's slice length 1000. Oracle: peak frames, peak locals and peak operand stack are EQUAL at N and 50N; heap slots(50N) <= 2*slots(N)+4; both results equal the host loop. evaluations = executor runs; non-trivial = the loop body has a binding and a nested block before the call; distinct by program text".into(),
+        rule: "tail-recursive shapes: a counter loop through `^`, two functions calling each other through function-typed parameters (`^other`), nilary closures chained by `^~`, or functions re-entering themselves / each other through fields of a record carried in the argument (`^m.go`); optionally entered by a named tail call `^f`; the state optionally carries 1-3 binaries that are rebuilt every iteration; before the dispatch 0-2 throw-away bindings (integer, heap binary, tuple, closure); the tail call sits under 0-4 generated wrappers (nested block, binding in the same branch, consequence of a condition, a branch after a failed binding pattern, redundant double block, a step before it), optionally two different wrapper stacks chosen by parity; each iteration adds a generated term (constant, n, length of a fresh binary, a tuple field, a closure call). Each shape runs at an even N in 40..118 (so that both runs see the same parities in each function) and at 50*N, quantum 64, profiling on; shapes that allocate binaries run again at (2N, 100N) with the runtime's slice length 1000. Oracle: peak frames, peak locals and peak operand stack are EQUAL at N and 50N; heap slots(50N) <= 2*slots(N)+4; both results equal the host loop. A second stream generates never-ending nilary functions `#{ steps…, ^ }` (1-4 steps that bind or leave integers, tuples and fresh binaries; the bare `^` last, directly or under a nested block / a branch) and samples their space after 40 000 and after 2 000 000 instruction units: the same peaks, slots bounded. evaluations = executor runs; non-trivial = the loop body has a binding and a nested block before the call; distinct by program text".into(),
         assumptions: vec![
             "ExecutionStats peaks are updated per instruction (profile = true), so they do not depend on slicing".into(),
             "slot reclamation happens once per slice, hence the 2x+4 tolerance on slots rather than equality".into(),
             "only tail calls in genuine tail position are generated (a non-tail `^` is the recorded C07 finding)".into(),
         ],
-        required_classes: vec!["kind:self-tail-call", "kind:mutual-recursion-through-parameters", "kind:ripple-tail-call-of-closures", "kind:self-through-record-field", "kind:mutual-through-record-fields", "allocating-shape-also-run-at-quantum-1000", "state-carries-several-binaries", "state-carries-a-binary-rebuilt-every-iteration", "entered-through-named-tail-call", "wrap:nested-block", "wrap:binding-before-call-in-same-branch", "wrap:inside-consequence", "wrap:after-failed-binding-match", "wrap:redundant-liftable-block", "two-different-paths-by-parity", "iterations-allocate-heap-binaries", "small-run-spans-30-slices"],
+        required_classes: vec!["kind:self-tail-call", "kind:mutual-recursion-through-parameters", "kind:ripple-tail-call-of-closures", "kind:self-through-record-field", "kind:mutual-through-record-fields", "allocating-shape-also-run-at-quantum-1000", "state-carries-several-binaries", "state-carries-a-binary-rebuilt-every-iteration", "entered-through-named-tail-call", "wrap:nested-block", "wrap:binding-before-call-in-same-branch", "wrap:inside-consequence", "wrap:after-failed-binding-match", "wrap:redundant-liftable-block", "two-different-paths-by-parity", "iterations-allocate-heap-binaries", "small-run-spans-30-slices", "kind:never-ending-nilary-loop", "nilary-loop-allocates"],
         started,
         technique: "proptest-generated tail-recursive program shapes; oracle = metamorphic (space at N vs 50N: peaks equal, heap slots bounded) + host-loop result model",
     })
@@ -486,6 +593,13 @@ pub fn run(ctx: &Ctx) -> i32 {
 
 pub fn replay(payload: &serde_json::Value) -> Result<(), String> {
     let reg = qrun::registry();
+    if payload["kind"] == "c16-nilary" {
+        let src = payload["source"].as_str().ok_or("source")?;
+        return match check_nilary(src, &reg) {
+            Ok(_) => Ok(()),
+            Err((s, m)) => Err(format!("{s}: {}", truncate(&m, 3000))),
+        };
+    }
     let small = payload["source_small"].as_str().ok_or("source_small")?;
     let big = payload["source_big"].as_str().ok_or("source_big")?;
     let quantum = payload["quantum"].as_u64().unwrap_or(QUANTUM as u64) as usize;
